@@ -6,6 +6,7 @@ import (
 	"os"
 	"path/filepath"
 	"sort"
+	"strconv"
 	"strings"
 	"time"
 )
@@ -482,6 +483,9 @@ func init() {
 						hms = append(hms, 100*(1+(k+j)%3)+z)
 					}
 				}
+				if v, err := strconv.Atoi(os.Getenv("SYMGO_HM")); err == nil && v > 0 {
+					hms = []int{v} // exploration aid: one code length / flag mode for every shape
+				}
 				for _, hm := range hms {
 					c := *c15
 					c.Name = "VerifC16Huge"
@@ -815,12 +819,12 @@ func init() {
 			var r []*HarnessCfg
 			p := mod + "/cmd/mp4ff-crop"
 			durs := map[string][]int{
-				"v":   {1, 39, 40, 41, 80, 81, 120, 200},
-				"vc":  {1, 40, 79, 80, 81, 120, 160},
-				"va":  {1, 20, 40, 41, 64, 80, 81, 100, 160},
-				"a":   {1, 21, 22, 43, 64, 100},
-				"vav": {1, 40, 41, 80, 120, 159, 160, 161, 250},
-				"vh":  {1, 416, 417, 834, 1000, 1700},
+				"v":    {1, 39, 40, 41, 80, 81, 120, 200},
+				"vc":   {1, 40, 79, 80, 81, 120, 160},
+				"va":   {1, 20, 40, 41, 64, 80, 81, 100, 160},
+				"a":    {1, 21, 22, 43, 64, 100},
+				"vav":  {1, 40, 41, 80, 120, 159, 160, 161, 250},
+				"vh":   {1, 416, 417, 834, 1000, 1700},
 				"va+L": {1, 41, 80, 100},
 				"vc+L": {40, 81},
 			}
